@@ -1,6 +1,252 @@
 package props
 
-import "github.com/corazawaf/coraza/v3/verifharness/vf"
+import (
+	"fmt"
+	"runtime"
+	"sort"
+	"strings"
+	"sync"
+	"time"
 
-// C04 placeholder until its own check is written.
-func C04(run *vf.Run) { run.Inconclusive("not built yet") }
+	coraza "github.com/corazawaf/coraza/v3"
+	"github.com/corazawaf/coraza/v3/verifharness/eng"
+	"github.com/corazawaf/coraza/v3/verifharness/vf"
+)
+
+// c04Key projects an outcome onto what C04 says is a function of (configuration, request):
+// interruption, set of fired rules, per rule the multiset of match triples, and the TX keys the
+// specification itself makes order-independent (stable across all allowed outcomes).
+func c04Key(o *eng.Outcome, proj eng.ProjOpts, stableTX map[string]bool) string {
+	c := *o
+	var tx []eng.TxKV
+	for _, kv := range o.TX {
+		if stableTX[strings.ToLower(string(kv.K))] {
+			tx = append(tx, kv)
+		}
+	}
+	c.TX = tx
+	// fired as a set, with match data attached to the id
+	type fm struct {
+		id int
+		md []eng.Datum
+	}
+	var fms []fm
+	for i, id := range c.Fired {
+		var md []eng.Datum
+		if i < len(c.MD) {
+			md = c.MD[i]
+		}
+		fms = append(fms, fm{id, md})
+	}
+	sort.SliceStable(fms, func(i, j int) bool { return fms[i].id < fms[j].id })
+	c.Fired, c.MD = nil, nil
+	for _, f := range fms {
+		c.Fired = append(c.Fired, f.id)
+		c.MD = append(c.MD, f.md)
+	}
+	return c.Key(proj)
+}
+
+// C04: a transaction's outcome is a function of configuration and request only.
+func C04(run *vf.Run) {
+	run.Rule = "Engine.tla makes the runtime's iteration order an explicit nondeterministic choice at every rule evaluation; TLC enumerates the cache family (rules sharing transformation prefixes over repeated names), the acts family (counters) and the select family, in every order, and the harness checks on the specification that the C04 projection (interruption, fired set, per-rule multiset of match triples, order-independent TX counters) of all allowed outcomes of a scenario is one value. Each scenario is then run on the real library R times on fresh WAFs and on one long-lived WAF (transaction pool reuse), under natural map order and under imposed orders (sorted, reverse, rotate-per-walk, shuffle) through the verif hook; every run's projection must equal the specification's single value. Non-trivial = some rule fires"
+	run.Exhaustive = true
+	run.Assume("TLC 1.8.0 explores the bounded instances completely")
+	run.Assume("the iteration-order hook permutes exactly what the Go runtime may permute (order of map keys)")
+	type fam struct {
+		name string
+		cfg  string
+		proj eng.ProjOpts
+	}
+	fams := []fam{
+		{"cache", cacheCfg(3, 0, "byValue", true), eng.ProjOpts{}},
+		{"acts", engineCfg("acts", 2, 0, "{1, 2}", `{"On"}`), eng.ProjOpts{}},
+	}
+	if run.Thorough() {
+		fams = []fam{
+			{"cache", cacheCfg(4, 1, "byValue", true), eng.ProjOpts{}},
+			{"acts", engineCfg("acts", 3, 1, "{1, 2}", `{"On"}`), eng.ProjOpts{}},
+			{"select", engineCfg("select", 3, 0, "{2}", `{"On"}`), eng.ProjOpts{FoldMDKeys: true}},
+		}
+	}
+	reps := vf.Pick(run, 2, 6)
+	for _, f := range fams {
+		c04Family(run, f.name, f.cfg, f.proj, reps)
+	}
+}
+
+func c04Family(run *vf.Run, name, cfg string, base eng.ProjOpts, reps int) {
+	run.Logf("C04 family %s: TLC", name)
+	groups, res, err := eng.Collect(run, eng.FamilyOpts{Name: name, CfgText: cfg, Proj: base, Workers: 3, Slices: 6, Timeout: vf.Pick(run, 10*time.Minute, 90*time.Minute)})
+	if err != nil {
+		run.Inconclusive("C04 family %s: %v", name, err)
+		return
+	}
+	run.AddTLC(res)
+	if !res.OK() {
+		run.Inconclusive("C04 family %s: TLC did not complete: %s", name, res.Describe())
+		return
+	}
+	run.Logf("C04 family %s: %s; %d scenarios", name, res.Describe(), len(groups))
+	type gstate struct {
+		g        *eng.Group
+		proj     eng.ProjOpts
+		stable   map[string]bool
+		specKey  string
+		orderDep bool
+		waf      coraza.WAF
+		seen     map[string]string // observed key -> description of the run
+		mu       sync.Mutex
+	}
+	var gs []*gstate
+	keys := make([]string, 0, len(groups))
+	for k := range groups {
+		keys = append(keys, k)
+	}
+	sort.Strings(keys)
+	orderDependent := 0
+	for _, k := range keys {
+		g := groups[k]
+		st := &gstate{g: g, proj: eng.ProjFor(&g.Scen, base), stable: map[string]bool{}, seen: map[string]string{}}
+		// TX keys stable across the allowed outcomes
+		vals := map[string]map[string]bool{}
+		for _, o := range g.Allowed {
+			present := map[string]bool{}
+			for _, kv := range o.TX {
+				kk := strings.ToLower(string(kv.K))
+				if vals[kk] == nil {
+					vals[kk] = map[string]bool{}
+				}
+				vals[kk][string(kv.V)] = true
+				present[kk] = true
+			}
+			for kk := range vals {
+				if !present[kk] {
+					vals[kk]["\x00absent"] = true
+				}
+			}
+		}
+		for kk, vs := range vals {
+			if len(vs) == 1 {
+				st.stable[kk] = true
+			}
+		}
+		sk := map[string]bool{}
+		for _, o := range g.Allowed {
+			oc := o
+			sk[c04Key(&oc, st.proj, st.stable)] = true
+		}
+		if len(sk) != 1 {
+			st.orderDep = true // the specification itself makes this scenario order-dependent
+			orderDependent++
+		}
+		for k := range sk {
+			st.specKey = k
+		}
+		gs = append(gs, st)
+	}
+	run.Extra["order_dependent_by_specification_"+name] = orderDependent
+	for _, mode := range eng.OrderModes {
+		eng.SetOrderMode(mode, run.Seed)
+		var wg sync.WaitGroup
+		sem := make(chan struct{}, runtime.NumCPU())
+		for _, st := range gs {
+			if st.orderDep {
+				continue
+			}
+			wg.Add(1)
+			sem <- struct{}{}
+			go func(st *gstate) {
+				defer wg.Done()
+				defer func() { <-sem }()
+				for rep := 0; rep < reps; rep++ {
+					for _, long := range []bool{false, true} {
+						var ro eng.RunOpts
+						if long {
+							st.mu.Lock()
+							if st.waf == nil {
+								w, err, p := eng.Compile(st.g.Text)
+								if err != nil || p != "" {
+									st.mu.Unlock()
+									continue
+								}
+								st.waf = w
+							}
+							ro.WAF = st.waf
+							st.mu.Unlock()
+						}
+						obs := eng.Run(&st.g.Scen, ro)
+						k := "panic/compile:" + obs.Panic + obs.CompileEr
+						if obs.Panic == "" && obs.CompileEr == "" {
+							k = c04Key(&obs.Out, st.proj, st.stable)
+						}
+						st.mu.Lock()
+						if _, ok := st.seen[k]; !ok {
+							st.seen[k] = fmt.Sprintf("order mode %s, repetition %d, long-lived WAF %v", mode, rep, long)
+						}
+						st.mu.Unlock()
+					}
+				}
+			}(st)
+		}
+		wg.Wait()
+	}
+	eng.SetOrderMode("natural", 0)
+	type fl struct {
+		kind, detail string
+		st           *gstate
+	}
+	var fails []fl
+	for i, st := range gs {
+		if st.orderDep {
+			run.Eval("")
+			continue
+		}
+		nt := ""
+		for _, o := range st.g.Allowed {
+			if len(o.Fired) > 0 {
+				nt = name + st.g.Text + fmt.Sprint(st.g.Scen.Req)
+			}
+			break
+		}
+		run.Eval(nt)
+		if i%499 == 0 {
+			run.Sample(map[string]any{"family": name, "directives": st.g.Text, "request": st.g.Scen.Req, "spec_projection": st.specKey, "distinct_observed_projections": len(st.seen)})
+		}
+		var ks []string
+		for k := range st.seen {
+			ks = append(ks, k)
+		}
+		sort.Strings(ks)
+		switch {
+		case len(ks) > 1:
+			fails = append(fails, fl{"outcome-varies", fmt.Sprintf("%d distinct outcomes for one (configuration, request): %s [%s] vs %s [%s]", len(ks), ks[0], st.seen[ks[0]], ks[1], st.seen[ks[1]]), st})
+		case len(ks) == 1 && ks[0] != st.specKey:
+			fails = append(fails, fl{"outcome-differs-from-spec", fmt.Sprintf("observed %s [%s]; specification: %s", ks[0], st.seen[ks[0]], st.specKey), st})
+		}
+		if st.waf != nil {
+			if c, ok := st.waf.(interface{ Close() error }); ok {
+				_ = c.Close()
+			}
+		}
+	}
+	// one violation per minimal feature set and kind
+	sort.Slice(fails, func(i, j int) bool {
+		fi, fj := fails[i].st.g.Scen.Features(), fails[j].st.g.Scen.Features()
+		if len(fi) != len(fj) {
+			return len(fi) < len(fj)
+		}
+		return len(fails[i].st.g.Text) < len(fails[j].st.g.Text)
+	})
+	seen := map[string]bool{}
+	for _, f := range fails {
+		sig := name + ":" + f.kind + "|" + strings.Join(f.st.g.Scen.Features(), "+")
+		if seen[f.kind] {
+			continue
+		}
+		seen[f.kind] = true
+		run.Violate(vf.Violation{Signature: sig,
+			What:   fmt.Sprintf("%s || %s || request %v", f.detail, strings.ReplaceAll(f.st.g.Text, "\n", " ; "), f.st.g.Scen.Req),
+			Replay: map[string]any{"family": name, "scenario": f.st.g.Scen, "directives": f.st.g.Text, "spec_allows": []string{f.st.specKey}, "observed": f.st.seen}})
+	}
+}
